@@ -77,7 +77,9 @@ func drawProfile(rt *rapid.T, ps []gen.Profile, weights []int) gen.Profile {
 	for _, w := range weights {
 		total += w
 	}
-	x := rapid.IntRange(0, total-1).Draw(rt, "profile")
+	// rapid's integers are biased towards small values: spread the draw so
+	// that the weights are the actual shares of the profiles
+	x := int(gen.Mix(rapid.Uint64().Draw(rt, "profile")) % uint64(total))
 	for i, w := range weights {
 		if x < w {
 			return ps[i]
